@@ -40,8 +40,8 @@ def obligations(tier, kind='inner', mode='rows', prefix='inner'):
     for sp in ('col', 'ext'):
         add(2, 2, spec=sp)
     add(2, 2, K=2, spec='mixed', nones=False, W=0)
-    add(2, 2, K=3, nones=False, W=0)
-    add(2, 1, K=3, spec='mixed', W=1)
+    add(2, 2, K=3, nones=False, W=0, K2const=q)
+    add(2, 1, K=3, spec='mixed', W=1, K2const=q)
     for seed in (1, 2):
         add(2, 2, ktype='str', hashseed=seed)
     if not q:
